@@ -288,6 +288,16 @@ def compressed_field(kind, rng):
     axes = [f.set_construct(C.DomainAxis(s)) for s in shape]
     f.set_data(C.Data(arr), axes=axes)
     aux = C.AuxiliaryCoordinate(properties={"long_name": "obs coordinate"}, data=C.Data(arr))
+    if kind == "contiguous" and rng.random() < 0.6:
+        # bounds held in a ragged array too (uncompress is then effective on the bounds)
+        try:
+            cv = arr.get_count()
+            nobs = int(cv.data.array.sum())
+            barr = C.RaggedContiguousArray(compressed_array=np.arange(2.0 * nobs).reshape(nobs, 2), shape=tuple(shape) + (2,),
+                                           count_variable=cv.copy())
+            aux.set_bounds(C.Bounds(data=C.Data(barr)))
+        except Exception:
+            pass
     f.set_construct(aux, axes=axes)
     if rng.random() < 0.5:
         f.set_construct(C.CellMethod(axes=[axes[0]], method="mean", qualifiers={"interval": [C.Data(1, "hour")]}))
@@ -362,6 +372,68 @@ def mesh_array(kind, rng):
 
 
 MESH_KINDS = ["bounds", "cellconn", "point"]
+
+GEO_CLASSES = ["AuxiliaryCoordinate", "AuxiliaryCoordinate", "DomainAncillary", "DimensionCoordinate"]
+GEO_CELLS = [(1,), (1,), (1, 2), (2, 1), (1, 1), (3,), (2, 3), (1, 3)]
+
+
+def geometry_coordinate(rng, cls=None, cells=None):
+    """A coordinate-like construct with geometry, node bounds (cells…, parts, nodes), an interior ring
+    (cells…, parts), node-count and part-node-count variables and netCDF names; the cell axes include
+    size-1 axes (so that squeeze is effective), two cell axes (transpose) and a size-1 part axis."""
+    C = cfdm()
+    cls = cls or rng.choice(GEO_CLASSES)
+    cells = tuple(cells) if cells is not None else rng.choice(GEO_CELLS)
+    if cls == "DimensionCoordinate":
+        cells = (cells[0] * (cells[1] if len(cells) > 1 else 1),)
+    parts = rng.choice([1, 2, 2])
+    nodes = rng.choice([3, 4])
+    n = int(np.prod(cells))
+    vals = np.array([float(10 * i + rng.randint(0, 5)) for i in range(n)]).reshape(cells)
+    bvals = np.array([float(rng.randint(0, 60)) for _ in range(n * parts * nodes)]).reshape(cells + (parts, nodes))
+    if rng.random() < 0.4 and parts > 1:
+        bvals = np.ma.array(bvals)
+        bvals[..., -1, nodes - 1:] = np.ma.masked
+    rvals = np.array([rng.randint(0, 1) for _ in range(n * parts)]).reshape(cells + (parts,))
+    c = getattr(C, cls)(properties={"standard_name": rng.choice(["longitude", "latitude"]), "units": "degrees"})
+    c.set_data(C.Data(vals, "degrees"))
+    b = C.Bounds(data=C.Data(bvals, "degrees"))
+    if rng.random() < 0.5:
+        b.nc_set_variable("nodes_x")
+    c.set_bounds(b)
+    c.set_geometry(rng.choice(["polygon", "polygon", "line"]))
+    ir = C.InteriorRing(data=C.Data(rvals), properties={"long_name": "interior ring"})
+    if rng.random() < 0.6:
+        ir.nc_set_variable("interior_ring")
+        ir.nc_set_dimension("part")
+    c.set_interior_ring(ir)
+    if rng.random() < 0.7:
+        c.set_node_count(nc_decorate(C.NodeCountProperties(properties={"long_name": "node count"}), rng))
+    if rng.random() < 0.7:
+        c.set_part_node_count(nc_decorate(C.PartNodeCountProperties(properties={"long_name": "part node count"}), rng))
+    if rng.random() < 0.5:
+        # a valid_* / fill property of the parent that bites on the node values (bounds inherit it in apply_masking)
+        flat = np.ma.compressed(bvals)
+        v = float(flat[rng.randrange(flat.size)])
+        c.set_property(rng.choice(["valid_min", "valid_max", "missing_value", "_FillValue"]), v)
+    if rng.random() < 0.4:
+        c.nc_set_variable(rng.choice(NAMES))
+    return c
+
+
+def geometry_field(rng):
+    """A field whose auxiliary coordinates are geometry coordinates over its (partly size-1) axes."""
+    C = cfdm()
+    cells = rng.choice([(1, 2), (2, 1), (1, 1), (2, 3), (1, 3)])
+    f = C.Field(properties={"standard_name": "air_temperature", "units": "K"})
+    axes = [f.set_construct(C.DomainAxis(s)) for s in cells]
+    f.set_data(C.Data(np.array([float(rng.randint(0, 40)) for _ in range(int(np.prod(cells)))]).reshape(cells), "K"), axes=axes)
+    f.set_construct(geometry_coordinate(rng, "AuxiliaryCoordinate", cells), axes=axes)
+    if rng.random() < 0.5:
+        f.set_construct(geometry_coordinate(rng, "AuxiliaryCoordinate", (cells[0],)), axes=[axes[0]])
+    if rng.random() < 0.4:
+        f.set_property("valid_max", 20.0)
+    return f
 
 
 def first_subarray(arr, which=0):
@@ -490,7 +562,16 @@ def standalone(cls, rng):
             except Exception:
                 pass
     masking_props(x, rng, 0.35)
-    return nc_decorate(x, rng)
+    x = nc_decorate(x, rng)
+    # (drawn last, so that older recipes keep building the same objects) data held in a compressed array:
+    # uncompress / to_memory are then not no-ops on stand-alone constructs either
+    if cls in ("Bounds", "CellMeasure", "FieldAncillary", "DomainAncillary", "AuxiliaryCoordinate", "InterpolationParameter") \
+            and rng.random() < 0.12 and not (hasattr(x, "has_bounds") and x.has_bounds()):
+        try:
+            x.set_data(C.Data(compressed_array(rng.choice(COMP_KINDS), rng)[0]))
+        except Exception:
+            pass
+    return x
 
 
 def components(f):
@@ -550,8 +631,8 @@ def components(f):
     return out
 
 
-SOURCES = ["ex", "rnd", "comp", "geom", "sub", "mesh", "file", "new"]
-WEIGHTS = [22, 14, 10, 6, 6, 5, 7, 30]
+SOURCES = ["ex", "rnd", "comp", "geom", "sub", "mesh", "file", "new", "geoc", "geof"]
+WEIGHTS = [22, 14, 10, 6, 6, 5, 7, 30, 6, 5]
 
 
 def gen_recipe(rng):
@@ -578,6 +659,17 @@ def all_components(r):
     src = r["src"]
     if src == "new":
         return [(r["cls"], standalone(r["cls"], rng))]
+    if src == "geoc":
+        c = geometry_coordinate(rng, r.get("cls"))
+        comps = [(type(c).__name__, c), ("Data", c.data), ("Bounds", c.bounds), ("Data", c.bounds.data),
+                 ("InteriorRing", c.interior_ring), ("Data", c.interior_ring.data)]
+        for g in ("get_node_count", "get_part_node_count"):
+            v = getattr(c, g)(None)
+            if v is not None:
+                comps.append((type(v).__name__, v))
+        return comps
+    if src == "geof":
+        return components(geometry_field(rng))
     if src == "sub":
         c = subsampled_coordinate(rng)
         comps = [("AuxiliaryCoordinate", c), ("Data", c.data), (type(c.data.source()).__name__, c.data.source())]
@@ -662,6 +754,22 @@ def recipe_for(cls, rng, tries=12):
         return None
     hint = HINT.get(cls)
     for _ in range(tries):
+        if cls in GEO_CLASSES and rng.random() < 0.3:
+            return dict(src="geoc", cls=cls, seed=rng.randrange(1 << 40), pick=0)
+        if cls in ("Field", "Domain", "Constructs") and rng.random() < 0.15:
+            r = dict(src="geof", seed=rng.randrange(1 << 40), pick=0)
+            comps = all_components(r)
+            idxs = [i for i, (_, x) in enumerate(comps) if type(x).__name__ == cls]
+            if idxs:
+                r["pick"] = rng.choice(idxs)
+                return r
+        if cls in ("InteriorRing", "NodeCountProperties", "PartNodeCountProperties", "Bounds") and rng.random() < 0.3:
+            r = dict(src="geoc", seed=rng.randrange(1 << 40), pick=0)
+            comps = all_components(r)
+            idxs = [i for i, (_, x) in enumerate(comps) if type(x).__name__ == cls]
+            if idxs:
+                r["pick"] = rng.choice(idxs)
+                return r
         if cls in STANDALONE and (hint is None or "new" in hint) and rng.random() < 0.45:
             return dict(src="new", cls=cls, seed=rng.randrange(1 << 40), pick=0)
         r = gen_recipe(rng)
